@@ -1225,9 +1225,11 @@ package mqtt
 //@ ensures C06-every-selected-member-is-delivered-to: forall c string :: has(s.SharedSelected, c) ==> has(s.Subscriptions, c)
 //@ ensures C06-nobody-else-is-added: forall c string :: has(s.Subscriptions, c) ==> old(has(s.Subscriptions, c)) || has(s.SharedSelected, c)
 //@ ensures earlier-entries-kept: forall c string :: old(has(s.Subscriptions, c)) ==> has(s.Subscriptions, c)
+//@ ensures C04-a-client-that-was-already-a-recipient-keeps-its-own-subscription: forall c string :: old(has(s.Subscriptions, c)) ==> s.Subscriptions[c].Filter == old(s.Subscriptions[c].Filter) && s.Subscriptions[c].Identifier == old(s.Subscriptions[c].Identifier) && (s.Subscriptions[c].RetainAsPublished <==> old(s.Subscriptions[c].RetainAsPublished)) && s.Subscriptions[c].RetainHandling == old(s.Subscriptions[c].RetainHandling) && s.Subscriptions[c].Qos >= old(s.Subscriptions[c].Qos)
 // verif:loop mqtt.Subscribers.MergeSharedSelected 1
 //@ invariant merged: forall c string :: visited1[c] && has(s.SharedSelected, c) ==> has(s.Subscriptions, c)
 //@ invariant nobody-else: forall c string :: has(s.Subscriptions, c) ==> old(has(s.Subscriptions, c)) || has(s.SharedSelected, c)
+//@ invariant own-subscription-kept: forall c string :: old(has(s.Subscriptions, c)) ==> has(s.Subscriptions, c) && s.Subscriptions[c].Filter == old(s.Subscriptions[c].Filter) && s.Subscriptions[c].Identifier == old(s.Subscriptions[c].Identifier) && (s.Subscriptions[c].RetainAsPublished <==> old(s.Subscriptions[c].RetainAsPublished)) && s.Subscriptions[c].RetainHandling == old(s.Subscriptions[c].RetainHandling) && s.Subscriptions[c].Qos >= old(s.Subscriptions[c].Qos)
 //@ invariant kept: forall c string :: old(has(s.Subscriptions, c)) ==> has(s.Subscriptions, c)
 //@ invariant maps: s.Subscriptions == old(s.Subscriptions) && s.SharedSelected == old(s.SharedSelected) && s.Subscriptions != nil && s.Subscriptions != s.SharedSelected && rangemap1 == s.SharedSelected && (forall c string :: (has(s.SharedSelected, c) <==> old(has(s.SharedSelected, c))))
 
